@@ -1110,7 +1110,7 @@ class CreateOverlappingPartitions(Expr):
                 after = 2 * self.after
                 for i in range(1, self.frame.npartitions):
                     dsk[(name_append, i)] = (  # type: ignore[assignment]
-                        _head_timedelta,
+                        _head_timedelta_checked,
                         (self.frame._name, i - 1),
                         (self.frame._name, i),
                         after,
@@ -1139,6 +1139,18 @@ def _tail_timedelta(current, prev_, before):
         [prev[prev.index > (current.index.min() - before)] for prev in prev_]
     )
     return selected
+
+
+def _head_timedelta_checked(current, next_, after):
+    if len(next_) == 0 and len(current) > 0:
+        # only the next partition is looked at: when it is empty the rows
+        # inside the window would have to come from later partitions
+        raise NotImplementedError(
+            "Partition size is less than overlapping "
+            "window size. Try using ``df.repartition`` "
+            "to increase the partition size."
+        )
+    return _head_timedelta(current, next_, after)
 
 
 def _overlap_chunk(df, func, before, after, *args, **kwargs):
